@@ -138,6 +138,41 @@ def index_probe(ctx, sub, site, get, shape, seq, case, rng_seed):
             ctx.violation(sub, site, "index-argument", "argument %r on shape %s: implementation %s, model %s" % (a, shape, impl, mod), dict(case, index_arg=repr(a)))
 
 
+def pd_probe(ctx, legacy, noshape, shape, seq, case):
+    """legacy ProbDist.__getitem__ as translated (probdist_get): ints, full / partial / too long tuples, components out of range or
+    negative (range-checked and wrapped PER AXIS here, unlike MultinomialDistribution), other types, and an object without a shape"""
+    import random
+    m = ctx.get_model()
+    rr = random.Random(len(seq) * 11 + len(shape))
+    n, rank = len(seq), len(shape)
+    args = [("int", i) for i in (-n - 1, -n, -1, 0, n - 1, n)]
+    full = tuple(rr.randrange(k) for k in shape)
+    args += [("tuple", full[:r]) for r in range(rank + 1)] + [("tuple", full + (0,))]
+    for _ in range(4):
+        t = [rr.randrange(k) for k in shape]
+        a = rr.randrange(rank)
+        t[a] = rr.choice([shape[a], -1, -shape[a], -shape[a] - 1])
+        args.append(("tuple", tuple(t)))
+    args += [("other", None), ("other", 1.0), ("other", [0] * rank)]
+    for obj, has_shape in ((legacy, 1), (noshape, 0)):
+        for kind, a in (args if has_shape else args[:3] + [("tuple", full), ("other", None)]):
+            try:
+                r = obj[a]
+                arr = np.asarray(r, dtype=float)
+                impl = ("ok", list(arr.shape), [float(x) for x in arr.ravel()])
+            except Exception as e:
+                impl = ("err", type(e).__name__)
+            zs = [0, 1, a] if kind == "int" else ([1, len(a)] + list(a) if kind == "tuple" else [2, 0])
+            st, val = m.try_call("pd.getitem", [has_shape, len(shape)] + list(shape) + zs, seq)
+            if st == "ok":
+                r_ = int(val[0]); mod = ("ok", [int(v) for v in val[1:1 + r_]], [float(v) for v in val[1 + r_:]])
+            else:
+                mod = ("err", ERRMAP.get(val))
+            ctx.count("dist", key=("pd", tuple(shape), n, has_shape, kind, repr(a)), nontrivial=False, label="probdist-%s-%s" % (kind, mod[0]))
+            if impl != mod:
+                ctx.violation("dist", "ProbDist.__getitem__", "index-argument", "argument %r on shape %s (shape given: %s): implementation %s, model %s" % (a, shape, bool(has_shape), impl, mod), dict(case, index_arg=repr(a)))
+
+
 def case_ps(case):
     """entries are given either as exact fractions (converted to the nearest double) or as float.hex strings (exact doubles)"""
     if "ps_hex" in case:
@@ -230,6 +265,7 @@ def chk_dist(ctx, case):
         if float(legacy[tuple(idx)]) != v:      # objects/prob_dist.py (reshape-based access): same row-major layout
             ctx.violation("dist", "ProbDist.__getitem__", "value", "ProbDist[%s]=%s model %s" % (idx, legacy[tuple(idx)], v), dict(case, idx=list(idx)))
     index_probe(ctx, "dist", "MultinomialDistribution.__getitem__", lambda a: d[a], shape, base_ps, case, len(base_ps) * 7 + len(shape))
+    pd_probe(ctx, legacy, ProbDist(np.array(base_ps)), shape, base_ps, case)
     # --- marginals for the listed subsets / orders
     for rem in case["remains"]:
         try:
